@@ -5,7 +5,7 @@ rows = list(csv.reader(open('/verif/seeded/MATRIX.tsv'), delimiter='\t'))
 hdr, rows = rows[0], sorted(rows[1:], key=lambda r: (r[0].split('-')[1:], r[0]))
 ids = hdr[2:]
 out = ["# Seeded property-breaking changes x checks (quick tier)\n",
-       "`X` = the check exits 1 with a VIOLATION line on the tree with the change applied; blank = exits 0. ",
+       "`X` = the check exits 1 with a VIOLATION line on the tree with the change applied; blank = exits 0; `·` = not run (the check of the seed's own property had already fired: tools/own_first.sh). ",
        "The column of the seed's own property is marked with `[X]`. Every change compiles and passes the repository's 164 tests.\n",
        "| seed | origin | needs to manifest | " + " | ".join(i[1:] for i in ids) + " |",
        "|---|---|---|" + "---|" * len(ids)]
@@ -20,7 +20,7 @@ for r in rows:
     if origin.startswith('own'): need = meta.get('what', '')
     cells = []
     for i, c in zip(ids, r[2:]):
-        x = 'X' if c == 'CAUGHT' else ('!' + c if c.startswith('ERR') else '')
+        x = 'X' if c == 'CAUGHT' else ('!' + c if c.startswith('ERR') else ('·' if c == 'NR' else ''))
         if i == prop and x == 'X': x = '[X]'; n_own += 1
         cells.append(x)
     out.append(f"| {name} | {origin} | {need} | " + " | ".join(cells) + " |")
